@@ -48,15 +48,15 @@ func (g *poolCtl) gate(t int) {
 }
 
 type poolState struct {
-	parked      []int
-	submitted   int
-	submitRet   int
-	waitCalls   int
-	waitDone    int
-	released    int
-	closed      bool
-	step        int
-	workers     int
+	parked    []int
+	submitted int
+	submitRet int
+	waitCalls int
+	waitDone  int
+	released  int
+	closed    bool
+	step      int
+	workers   int
 }
 
 type poolChooser func(st poolState) string
